@@ -18,8 +18,8 @@ Has(r, f) == f \in DOMAIN r
 RangeOf(f) == {f[x] : x \in DOMAIN f}
 Max2(a, b) == IF a >= b THEN a ELSE b
 Min2(a, b) == IF a <= b THEN a ELSE b
-Last(q) == q[Len(q)]
-Front(q) == SubSeq(q, 1, Len(q) - 1)
+LastOf(q) == q[Len(q)]
+FrontOf(q) == SubSeq(q, 1, Len(q) - 1)
 Sel(q, P(_)) == SelectSeq(q, P)
 
 Tok2(key) == <<key[1], key[2]>>
@@ -166,7 +166,7 @@ SnapSubsDistinct(snap) ==
 (***************************************************************************)
 TIdx(ev) == ev.t + 1          \* token indices are 0-based in traces
 NoOp == [op |-> "none", ctx |-> 0, tgt |-> 0, live |-> TRUE, m |-> 0, c |-> 0, d |-> 0]
-CurOp(sh) == IF sh.opStack = <<>> THEN NoOp ELSE Last(sh.opStack)
+CurOp(sh) == IF sh.opStack = <<>> THEN NoOp ELSE LastOf(sh.opStack)
 OpOn(sh) == sh.opStack # <<>>
 LifeOf(sh, s) == IF s \in sh.S THEN sh.life[s] ELSE "none"
 
@@ -210,7 +210,7 @@ UpdOp(sh, ev) ==
 
 UpdOpret(sh, ev) ==
   LET co == CurOp(sh)
-      base == [sh EXCEPT !.opStack = IF @ # <<>> THEN Front(@) ELSE @]
+      base == [sh EXCEPT !.opStack = IF @ # <<>> THEN FrontOf(@) ELSE @]
       ok == ev.r = "ok"
       tgt == co.tgt
   IN
@@ -299,7 +299,7 @@ UpdCb(sh, ev) ==
 
 UpdCbret(sh, ev) ==
   LET s == ev.s
-      b0 == [sh EXCEPT !.stack = IF @ # <<>> THEN Front(@) ELSE @]
+      b0 == [sh EXCEPT !.stack = IF @ # <<>> THEN FrontOf(@) ELSE @]
   IN IF IsTimer(sh, s)
      THEN CASE ev.ret = "to"  -> [b0 EXCEPT !.dl[s] = ev.arg * sh.tick, !.dlHi[s] = ev.arg * sh.tick, !.hasDl[s] = TRUE, !.dlPending[s] = FALSE, !.armLo[s] = ev.arg * sh.tick,
                                            !.armHi[s] = ev.arg * sh.tick, !.armId[s] = @ + 1,
@@ -326,7 +326,7 @@ Effective(sh, s, act) == IF act \notin {"continue", "err"} THEN act
 UpdPeret(sh, ev) ==
   LET s == ev.s
       eff == Effective(sh, s, ev.act)
-      b00 == [sh EXCEPT !.peStack = IF @ # <<>> THEN Front(@) ELSE @,
+      b00 == [sh EXCEPT !.peStack = IF @ # <<>> THEN FrontOf(@) ELSE @,
                        !.lastPeret = [on |-> TRUE, s |-> s, act |-> ev.act, eff |-> eff],
                        !.deferred[s] = "continue", !.selfGone[s] = FALSE,
                        !.fuzzy[s] = @ \/ (ev.act = "err" /\ sh.deferred[s] # "continue")]
@@ -377,7 +377,7 @@ Upd(sh, ev) ==
     [] ev.e = "idle_run" -> IF ev.i \in DOMAIN sh.idle
                             THEN [sh EXCEPT !.idlePhase = TRUE, !.stack = Append(@, 0 - ev.i), !.idle[ev.i].st = "ran"]
                             ELSE [sh EXCEPT !.idlePhase = TRUE, !.stack = Append(@, 0 - ev.i)]
-    [] ev.e = "idle_ret" -> [sh EXCEPT !.stack = IF @ # <<>> THEN Front(@) ELSE @]
+    [] ev.e = "idle_ret" -> [sh EXCEPT !.stack = IF @ # <<>> THEN FrontOf(@) ELSE @]
     [] ev.e = "snap"    -> IF ev.gone = 1 THEN sh
                            ELSE [sh EXCEPT !.cmpSnap = FALSE,
                                            !.lastSnap = [valid |-> TRUE, epoll |-> ev.epoll, life |-> ev.life,
